@@ -123,3 +123,82 @@ func ExtObjectEvents(deep bool) []model.Event {
 func ExtEvents(deep bool) []model.Event {
 	return append(ExtArrayEvents(deep), ExtObjectEvents(deep)...)
 }
+
+// boundaryInts is the union of the width boundaries of all integer encodings of the three formats.
+var boundaryInts = []float64{0, 1, -1, 23, 24, 127, 128, 200, 255, 256, -128, -129, 32767, 32768, 40000, -32768, -32769, 65535, 65536,
+	1<<31 - 1, 1 << 31, 3e9, -(1 << 31), -(1 << 31) - 1, 1<<32 - 1, 1 << 32, 1 << 53}
+
+func intBoundaries[T int | int8 | int16 | int32 | int64 | uint | uint8 | uint16 | uint32 | uint64](extra ...T) []T {
+	var out []T
+	for _, f := range boundaryInts {
+		v := T(f)
+		if float64(v) == f { // fits the type
+			out = append(out, v)
+		}
+	}
+	return append(out, extra...)
+}
+
+func pairEvents[T any](k model.Kind, vals []T) []model.Event {
+	var out []model.Event
+	for _, a := range vals {
+		for _, b := range vals {
+			out = append(out, model.Ext(k, []T{a, b}))
+		}
+	}
+	return out
+}
+
+// ExtPairEvents returns, for every integer array kind, the arrays [a, b] for ALL ordered pairs of width-boundary values
+// of its element type (encoders that choose one element width for the whole array must look at every element).
+func ExtPairEvents() []model.Event {
+	var out []model.Event
+	out = append(out, pairEvents(model.KInt8Array, intBoundaries[int8]())...)
+	out = append(out, pairEvents(model.KInt16Array, intBoundaries[int16]())...)
+	out = append(out, pairEvents(model.KInt32Array, intBoundaries[int32]())...)
+	out = append(out, pairEvents(model.KInt64Array, intBoundaries[int64](math.MaxInt64, math.MinInt64))...)
+	out = append(out, pairEvents(model.KIntArray, intBoundaries[int](math.MaxInt64, math.MinInt64))...)
+	out = append(out, pairEvents(model.KUint8Array, intBoundaries[uint8]())...)
+	out = append(out, pairEvents(model.KUint16Array, intBoundaries[uint16]())...)
+	out = append(out, pairEvents(model.KUint32Array, intBoundaries[uint32]())...)
+	out = append(out, pairEvents(model.KUint64Array, intBoundaries[uint64](1<<63-1, 1<<63, math.MaxUint64))...)
+	out = append(out, pairEvents(model.KUintArray, intBoundaries[uint](1<<63-1, 1<<63, math.MaxUint64))...)
+	return out
+}
+
+func sizedArr[T any](k model.Kind, n int, f func(i int) T) model.Event {
+	s := make([]T, n)
+	for i := range s {
+		s[i] = f(i)
+	}
+	return model.Ext(k, s)
+}
+
+func sizedObj[T any](k model.Kind, n int, f func(i int) T) model.Event {
+	m := make(map[string]T, n)
+	for i := 0; i < n; i++ {
+		m["k"+string(rune('a'+i%26))+string(rune('a'+i/26%26))] = f(i)
+	}
+	return model.Ext(k, m)
+}
+
+// ExtSizedEvents returns every typed array and typed map event with n elements.
+func ExtSizedEvents(n int) []model.Event {
+	return []model.Event{
+		sizedArr(model.KBoolArray, n, func(i int) bool { return i%3 == 0 }), sizedArr(model.KStringArray, n, func(i int) string { return string(rune('a' + i%26)) }),
+		sizedArr(model.KInt8Array, n, func(i int) int8 { return int8(i) }), sizedArr(model.KInt16Array, n, func(i int) int16 { return int16(i * 100) }),
+		sizedArr(model.KInt32Array, n, func(i int) int32 { return int32(i) * 70000 }), sizedArr(model.KInt64Array, n, func(i int) int64 { return int64(i) << 33 }),
+		sizedArr(model.KIntArray, n, func(i int) int { return -i }), sizedArr(model.KBytes, n, func(i int) byte { return byte(i) }),
+		sizedArr(model.KUint8Array, n, func(i int) uint8 { return uint8(i) }), sizedArr(model.KUint16Array, n, func(i int) uint16 { return uint16(i * 200) }),
+		sizedArr(model.KUint32Array, n, func(i int) uint32 { return uint32(i) * 70000 }), sizedArr(model.KUint64Array, n, func(i int) uint64 { return uint64(i) << 40 }),
+		sizedArr(model.KUintArray, n, func(i int) uint { return uint(i) }), sizedArr(model.KFloat32Array, n, func(i int) float32 { return float32(i) / 2 }),
+		sizedArr(model.KFloat64Array, n, func(i int) float64 { return float64(i) / 4 }),
+		sizedObj(model.KBoolObject, n, func(i int) bool { return i%2 == 0 }), sizedObj(model.KStringObject, n, func(i int) string { return string(rune('a' + i%26)) }),
+		sizedObj(model.KInt8Object, n, func(i int) int8 { return int8(i) }), sizedObj(model.KInt16Object, n, func(i int) int16 { return int16(i * 100) }),
+		sizedObj(model.KInt32Object, n, func(i int) int32 { return int32(i) * 70000 }), sizedObj(model.KInt64Object, n, func(i int) int64 { return int64(i) << 33 }),
+		sizedObj(model.KIntObject, n, func(i int) int { return -i }), sizedObj(model.KUint8Object, n, func(i int) uint8 { return uint8(i) }),
+		sizedObj(model.KUint16Object, n, func(i int) uint16 { return uint16(i * 200) }), sizedObj(model.KUint32Object, n, func(i int) uint32 { return uint32(i) * 70000 }),
+		sizedObj(model.KUint64Object, n, func(i int) uint64 { return uint64(i) << 40 }), sizedObj(model.KUintObject, n, func(i int) uint { return uint(i) }),
+		sizedObj(model.KFloat32Object, n, func(i int) float32 { return float32(i) / 2 }), sizedObj(model.KFloat64Object, n, func(i int) float64 { return float64(i) / 4 }),
+	}
+}
